@@ -571,6 +571,52 @@ def live_mutations(module, fn):
                 findings.append((lp, "loop-rebinds", f"the loop target `{t.id}` overwrites the variable `{t.id}` of this function (defined at line "
                                  f"{defs_before[-1].lineno if defs_before else fn.lineno}), which is read again after the loop (line {reads_after[0].lineno}): "
                                  "after the loop it holds the loop's last element"))
+    # (4b) a tuple-unpacking assignment in a branch (`if report: a, b, c = <expr>`) that rebinds a variable which this block assigned before the branch and
+    #      reads again after it, while a sibling target of the same unpacking is used inside the branch only: the unpacking serves the branch (a report)
+    #      and overwrites the live variable on the way
+    parents_ = {}
+    for n in nodes + [fn]:
+        for c in ast.iter_child_nodes(n):
+            parents_[id(c)] = n
+    for st in nodes:
+        if not (isinstance(st, ast.Assign) and len(st.targets) == 1 and isinstance(st.targets[0], (ast.Tuple, ast.List))):
+            continue
+        names_ = [t.id for t in st.targets[0].elts if isinstance(t, ast.Name)]
+        if len(names_) < 2:
+            continue
+        br = parents_.get(id(st))
+        if not isinstance(br, ast.If) or not any(x is st for x in br.body + br.orelse):
+            continue
+        outer = parents_.get(id(br))
+        blk = next((getattr(outer, f_) for f_ in ("body", "orelse", "finalbody") if isinstance(getattr(outer, f_, None), list) and any(x is br for x in getattr(outer, f_))), None)
+        if blk is None:
+            continue
+        k_ = next(i for i, x in enumerate(blk) if x is br)
+        rhs_ = {x.id for x in ast.walk(st.value) if isinstance(x, ast.Name)}
+        end_ = getattr(br, "end_lineno", br.lineno)
+        inside_only = [n_ for n_ in names_ if not any(isinstance(x, ast.Name) and x.id == n_ and isinstance(x.ctx, ast.Load) for s2 in blk[k_ + 1:] for x in ast.walk(s2))
+                       and not any(isinstance(x, ast.Name) and x.id == n_ for s2 in blk[:k_] for x in ast.walk(s2))]
+        for n_ in names_:
+            examined += 1
+            if n_ in rhs_ or n_ in inside_only:
+                continue
+            set_before = any(isinstance(s2, ast.Assign) and any(isinstance(x, ast.Name) and x.id == n_ and isinstance(x.ctx, ast.Store) for t2 in s2.targets for x in ast.walk(t2))
+                             for s2 in blk[:k_])
+            read_after = [x for s2 in blk[k_ + 1:] for x in ast.walk(s2) if isinstance(x, ast.Name) and x.id == n_ and isinstance(x.ctx, ast.Load)]
+            reset_after = any(isinstance(s2, ast.Assign) and any(isinstance(x, ast.Name) and x.id == n_ and isinstance(x.ctx, ast.Store) for t2 in s2.targets for x in ast.walk(t2))
+                              and s2.lineno < (read_after[0].lineno if read_after else 0) for s2 in blk[k_ + 1:])
+            if set_before and read_after and not reset_after and not inside_only and not br.orelse:
+                # every target of the unpacking is a live name of the block: whether the branch means to replace them (a fallback) or only borrows the names
+                # (a report) is not decided here
+                const_before = all(isinstance(s2.value, (ast.Constant, ast.Tuple, ast.List, ast.Dict)) for s2 in blk[:k_] if isinstance(s2, ast.Assign)
+                                   and any(isinstance(x, ast.Name) and x.id == n_ for t2 in s2.targets for x in ast.walk(t2)))
+                if not const_before:
+                    undecided.append((st, "unpack-rebinds", f"`{_txt(st)[:70]}` (in the branch at line {br.lineno}) unpacks into `{n_}`, which this block computed before the branch "
+                                      f"and reads again after it (line {read_after[0].lineno})"))
+            if set_before and read_after and not reset_after and inside_only:
+                findings.append((st, "loop-rebinds", f"`{_txt(st)[:70]}` (in the branch at line {br.lineno}) unpacks into `{n_}`, a variable this block set before the branch and reads "
+                                 f"again after it (line {read_after[0].lineno}), while `{inside_only[0]}` of the same unpacking is used inside the branch only: whenever "
+                                 f"the branch runs, `{n_}` goes on with the unpacked value instead of its own"))
     # (5) a parameter cut down to a fixed number of its elements and used afterwards
     for a in assigns:
         t = a.targets[0].id
